@@ -43,6 +43,36 @@ CHECKS["C19"] = dict(
     text="Fault enumeration is complete per input: a counting run gives W, then every k in 1..W is failed; the model covers every k in every interleaving for small N.",
     note="Representative inputs (3-5 records) per command; write = one io.Writer.Write / write(2) call.",
     ref="7 C19")
+SAMTECH = ("TLA+ spec of the SAM projection (Sam.tla): the CIGAR walk, column flattening and flank machines are stepped by TLC against per-position definitions (MCSam); "
+           "TLC-enumerated CIGARs and record blocks are replayed into sam.ToMultiAlign / sam.ToPairAlign under 12 option sets; outputs validated by TLC (ObsSam)")
+CHECKS["C01"] = dict(tech=SAMTECH, ref="7 C01",
+    text="Every SAM-valid CIGAR of <=3 (thorough 4) operations over all nine operators at several offsets, and menu-built multi-record blocks with unmapped/secondary records, "
+         "are enumerated by TLC; each output row must equal MARow (projection, flattening, flank rule, window) computed by TLC from the abstract records.",
+    note="Bounded CIGAR length / reference length in the enumeration; longer inputs by seeded random blocks. Domain: records inside the reference, >=1 aligned base per query, upper-case IUPAC SEQ.")
+CHECKS["C02"] = dict(tech=SAMTECH, ref="7 C02",
+    text="The pair written by toPairAlign must equal PairOf (column list per reference position with insertions anchored after them), its window, its --skip-insertions form; "
+         "the derived clauses (degapped reference row = reference window; dropping reference-gap columns = the real toMultiAlign --pad row) are judged on real outputs.",
+    note="As C01; additionally records of one query are non-conflicting (disjoint reference intervals, distinct insertion anchors). The as-coded re-gap machine is not modelled step by step (its defect was a Go slice-aliasing effect).")
+CHECKS["C15"] = dict(tech=SAMTECH + "; window-filter and stdin relations of variants judged by TLC (ObsVariants); legacy flags via the binary (ObsC12 equality)", ref="7 C15",
+    text="Pure relations between two real runs, judged by TLC with WindowOf / column cut / WrapOK / InWindow over every window of the small vectors and random windows of the large.",
+    note="No reference to expected content; aa records straddling a join are not judged for window membership.")
+VARTECH = ("TLA+ definitions of SNP positions, indels and amino-acid changes (Variants.tla); the indel scanner stepped by TLC against IndelsOf for every column-class string (MCVariants); "
+           "TLC-generated alignments x feature layouts rendered as GenBank and GFF3 and replayed into variants / sam variants / toPairAlign+variants; outputs validated by TLC (ObsVariants)")
+CHECKS["C04"] = dict(tech=VARTECH, ref="7 C04",
+    text="Relational verdict: mentioned positions = SnpPositions exactly (with --append-snps; superset via codons without), every aa record = a true translation change of a named feature's codon, and every such change is reported; over every single-site change of a 30-base two-gene genome under 8 feature layouts.",
+    note="One hand-placed genome; feature layouts from a menu; annotation consistent with the genome.")
+CHECKS["C05"] = dict(tech=VARTECH, ref="7 C05",
+    text="Exhaustive over column-class strings: the scanner refines IndelsOf in the model for length <=7 (9), and the real commands are run on every string of length <=6 (8) in MSA, SAM and toPairAlign form.",
+    note="SAM form: reference bases outside the query's first/last base are uncovered (N), which the validator models.")
+CHECKS["C11"] = dict(tech=VARTECH, ref="7 C11",
+    text="Relation between real runs: sam variants = variants on real toPairAlign output (all queries), = variants on the MSA form when the two forms denote the same alignment, and is independent of the reference source.",
+    note="Relation only; agreement with the spec's list is C04/C05's verdict.")
+CHECKS["C13"] = dict(tech=VARTECH + "; snps --aggregate via ObsC03", ref="7 C13",
+    text="Aggregate lines = the set of mutations of the real per-sequence run with count/n printed to 9 decimals (long division in TLA+), kept iff count*1000 >= threshold*n, ordered by position.",
+    note="Thresholds are thousandths (exact or >=1e-3 from every occurring frequency); fewer than 1024 sequences.")
+CHECKS["C14"] = dict(tech=VARTECH, ref="7 C14",
+    text="Each layout is rendered both ways (join, complement, complement(join), join(complement,...) vs GFF rows with GFF3 phases); per sequence the two real outputs must be equal multisets, both position-sorted.",
+    note="Layouts expressible in both formats; mixed-strand joins are outside the domain.")
 PENDING = {}
 ALL = ["C%02d" % i for i in range(1, 20)]
 
